@@ -445,3 +445,112 @@ func ruleI19(c *Ctx) {
 	}
 	c.note("%d conversions of big numbers to float64", n)
 }
+
+// ---------- M8: an unknown length (-1) is not computed with ----------
+
+func init() {
+	register("M8", "-1 means 'length unknown', not a number: starlark.Len returns -1 for iterables that cannot tell their length (string.codepoints(), bytes.elems(), host iterables). Wherever its result takes part in arithmetic (+, -, *) or sizes an allocation, a test on the path has excluded the negative case (n >= 0, n > 0, n == k, n < 0 on the other branch); summing lengths without that test lets one unknown-length argument cancel a one-element list (`set.union(b\"e\".elems(), [7])` would see a total of zero and skip its work)", 3, ruleM8)
+	claim("C12", "M8")
+	claim("C02", "M8")
+}
+
+func ruleM8(c *Ctx) {
+	lenFn := c.P.Func("starlark", "Len")
+	if lenFn == nil {
+		c.anchorFail("starlark.Len not found")
+		return
+	}
+	n := 0
+	for _, fn := range c.P.Funcs {
+		if !isProdPkg(fnPkgPath(fn)) || fn == lenFn {
+			continue
+		}
+		ord := 0
+		eachInstr(fn, func(in ssa.Instruction) {
+			call, ok := in.(*ssa.Call)
+			if !ok || call.Call.StaticCallee() != lenFn || call.Referrers() == nil {
+				return
+			}
+			nonNegAt := func(b *ssa.BasicBlock) bool {
+				for _, pf := range pathFacts(b) {
+					bo, ok := pf.Cond.(*ssa.BinOp)
+					if !ok {
+						continue
+					}
+					op, x, y := bo.Op, bo.X, bo.Y
+					if y == ssa.Value(call) {
+						x, y, op = y, x, i9Flip(op)
+					}
+					if x != ssa.Value(call) {
+						continue
+					}
+					k, isK := constInt(y)
+					if !isK {
+						continue
+					}
+					if !pf.Truth {
+						switch op {
+						case token.LSS:
+							op = token.GEQ
+						case token.LEQ:
+							op = token.GTR
+						case token.NEQ:
+							op = token.EQL
+						default:
+							continue
+						}
+					}
+					switch op {
+					case token.GEQ:
+						if k >= 0 {
+							return true
+						}
+					case token.GTR:
+						if k >= -1 {
+							return true
+						}
+					case token.EQL:
+						if k >= 0 {
+							return true
+						}
+					}
+				}
+				return false
+			}
+			for _, r := range *call.Referrers() {
+				var at *ssa.BasicBlock
+				what := ""
+				switch x := r.(type) {
+				case *ssa.BinOp:
+					switch x.Op {
+					case token.ADD, token.SUB, token.MUL:
+						at, what = x.Block(), "arithmetic"
+					}
+				case *ssa.MakeSlice:
+					at, what = x.Block(), "an allocation size"
+				case *ssa.MakeMap:
+					at, what = x.Block(), "an allocation size"
+				case *ssa.Phi:
+					// merged into an accumulator: judged at the predecessor it comes from
+					for i, e := range x.Edges {
+						if e == ssa.Value(call) {
+							_ = i
+						}
+					}
+				}
+				if at == nil {
+					continue
+				}
+				n++
+				ord++
+				key := fmt.Sprintf("%s: Len() result in %s #%d", fnName(fn), what, ord)
+				if nonNegAt(at) {
+					c.ok(key, c.P.Pos(r.Pos()), "a test on the path excludes -1")
+				} else {
+					c.viol(key, c.P.Pos(r.Pos()), "the result of Len(), which is -1 for an iterable of unknown length, is used in "+what+" without a test that it is not negative")
+				}
+			}
+		})
+	}
+	c.note("%d uses of Len() results in arithmetic or allocation sizes", n)
+}
